@@ -832,7 +832,7 @@ class Calls(Interp):
             self.spec_cls = func.cls
         try:
             for k, r in enumerate(c.requires):
-                b = self.spec_bool(parse_expr(r), env)
+                b = self.goal_bool(parse_expr(r), env)
                 self.oblige("pre", b, node, "%s.%d" % (c.target.split(":")[-1], k))
                 self.assume(b)
             old_heap = dict(self.st.heap)
